@@ -1,0 +1,62 @@
+//go:build verif
+
+package trs
+
+// Contracts for the deductive checks in /verif (comment-only; compiled only with -tags verif).
+// Property C17: "a TRS applies scale, then rotation, then translation".
+
+//@ func New pure
+//@   props C17
+//@ func Position pure
+//@   props C17
+//@ func Scale pure
+//@   props C17
+//@ func Rotation pure
+//@   props C17
+//@ func TRS.Position pure
+//@   props C17
+//@ func TRS.Scale pure
+//@   props C17
+//@ func TRS.Rotation pure
+//@   props C17
+
+//@ spec scaled(s vector3.Float64, v vector3.Float64) vector3.Float64 = vector3.New(s.X()*v.X(), s.Y()*v.Y(), s.Z()*v.Z())
+
+//@ func TRS.Transform pure
+//@   props C17
+//@   returns r
+//@   ensures scale_rotate_translate: r == trs.rotation.Rotate(scaled(trs.scale, in)).Add(trs.position)
+
+//@ func TRS.Translate pure
+//@   props C17
+//@   returns r
+//@   ensures r.position == trs.position.Add(in) && r.scale == trs.scale && r.rotation == trs.rotation
+
+//@ func TRS.TransformArray
+//@   props C17
+//@   returns r
+//@   ensures length: len(r) == len(in)
+//@   ensures elementwise: forall k int :: 0 <= k && k < len(in) ==> r[k] == trs.Transform(in[k])
+//@   ensures fresh(r)
+//@   loop 1:
+//@     invariant bounds: 0 <= $i && $i <= len(in)
+//@     invariant done: forall k int :: 0 <= k && k < $i ==> out[k] == trs.Transform(in[k])
+
+//@ func TRS.TransformInPlace
+//@   props C17
+//@   modifies in
+//@   ensures elementwise: forall k int :: 0 <= k && k < len(in) ==> in[k] == trs.Transform(old(in[k]))
+//@   loop 1:
+//@     invariant bounds: 0 <= $i && $i <= len(in)
+//@     invariant done: forall k int :: 0 <= k && k < $i ==> in[k] == trs.Transform(old(in[k]))
+//@     invariant rest: forall k int :: $i <= k && k < len(in) ==> in[k] == old(in[k])
+
+//@ lemma position_only_translates(p vector3.Float64, v vector3.Float64)
+//@   props C17
+//@   ensures Position(p).Transform(v) == v.Add(p)
+//@ lemma scale_only_scales(s vector3.Float64, v vector3.Float64)
+//@   props C17
+//@   ensures Scale(s).Transform(v) == scaled(s, v)
+//@ lemma rotation_only_rotates(q quaternion.Quaternion, v vector3.Float64)
+//@   props C17
+//@   ensures Rotation(q).Transform(v) == q.Rotate(v)
